@@ -37,9 +37,9 @@ func runC05(e *Env) {
 	r := e.R
 	r.Rule("C05.R1", "paths", "per-MID lock on the request's MID, first and on all exits", 2)
 	r.Rule("C05.R2", "paths", "cache lookup under the lock dominates dispatch; hit returns without dispatch", 4)
-	r.Rule("C05.R3", "paths", "reply stored on every reply-producing arm", 2)
+	r.Rule("C05.R3", "paths", "reply stored on every reply-producing arm and not modified afterwards", 4)
 	r.Rule("C05.R4", "flows", "store key and lookup key derive from the request's message ID", 4)
-	r.Rule("C05.R5", "tables+flows", "247 s lifetime", 2)
+	r.Rule("C05.R5", "tables+flows+paths", "247 s lifetime; an expired reply is hidden on lookup and replaced on store", 5)
 	r.Rule("C05.R6", "flows", "cached reply is a private copy", 1)
 	hr := e.fn("C05.R1", "udp/client.Conn.handleReq")
 	if hr != nil && len(hr.Params) == 3 {
@@ -204,6 +204,41 @@ func runC05(e *Env) {
 			}
 			e.R.Check(ok2, "C05.R5", "udp/client.messageCache.Store:expires-at-now+lifetime", e.fpos(f), "the cached reply expires at time.Now() + ExchangeLifetime", "the cached reply does not expire at now + EXCHANGE_LIFETIME")
 		}
+	}
+	if e.want("C05.R5") {
+		// "once the lifetime has elapsed the ID is treated as fresh again": the cache hides an expired reply on lookup and replaces it on store
+		sub := *e
+		rep := core.NewReport("tmp", e.Tier, "other")
+		sub.R = rep
+		checkExpiryPredicateAs(&sub, "C05.R5")
+		for _, o := range rep.Obls {
+			if strings.Contains(o.Key, "Cache.LoadOrStore") || strings.Contains(o.Key, "Cache.Load:") || strings.Contains(o.Key, "IsExpired") {
+				k := strings.TrimPrefix(o.Key, "C05.R5:")
+				if o.Status == core.Discharged {
+					e.R.Ok("C05.R5", k, o.Pos, o.Detail)
+				} else {
+					e.R.Fail("C05.R5", k, o.Pos, o.Detail)
+				}
+			}
+		}
+	}
+	if e.want("C05.R3") && pr != nil {
+		// what is cached is what is sent: the response is not modified between the store and the return
+		bad := ""
+		for _, c := range core.CallsNamed(pr, "udp/client.Conn.addResponseToCache") {
+			q := &core.PathQuery{Fn: pr, From: c.(ssa.Instruction), Target: func(in ssa.Instruction) bool {
+				sc, ok := in.(*ssa.Call)
+				if !ok {
+					return false
+				}
+				n := core.CalleeName(sc)
+				return strings.HasPrefix(n, "message/pool.Message.Set") || strings.HasPrefix(n, "message/pool.Message.Add") || strings.HasPrefix(n, "message/pool.Message.Remove") || strings.HasPrefix(n, "message/pool.Message.Reset")
+			}}
+			if w := q.Find(); w != nil {
+				bad = "the reply is modified after it was stored in the cache: a duplicate is answered with a different message than the first copy: " + e.trace(w)
+			}
+		}
+		e.R.Check(bad == "", "C05.R3", "udp/client.Conn.processResponse:cached-reply-is-final", e.fpos(pr), "after a reply is stored nothing modifies it before it is sent", bad)
 	}
 	if e.want("C05.R6") {
 		if f := e.fn("C05.R6", "udp/client.messageCache.Store"); f != nil {
